@@ -118,8 +118,8 @@ public:
     int nrec;     /* number of record fields (abstract)                                  */
     int sid0, sid1, sid2, sid3;   /* (no array member: CBMC cannot synthesise operator= for it) abstract identities (0..VERIF_NSID-1) of the sub-structures: field 0, field 1, array element, array size */
     int lab0, lab1; /* abstract identities of the first two record labels                */
-    type_t(): base(Constants::UNKNOWN), wrap(0), konst(false), mut(true), nrec(0), lab0(0), lab1(0), self(0), sid0(0), sid1(0), sid2(0), sid3(0) {}
-    type_t(kind_t k, const position_t&, size_t): base(k), wrap(0), konst(false), mut(true), nrec(0), lab0(0), lab1(0), self(0), sid0(0), sid1(0), sid2(0), sid3(0) {}
+    type_t(): base(Constants::UNKNOWN), wrap(0), konst(false), mut(true), nrec(0), lab0(0), lab1(0), self(0), sid0(0), sid1(0), sid2(0), sid3(0), nchild(0) {}
+    type_t(kind_t k, const position_t&, size_t): base(k), wrap(0), konst(false), mut(true), nrec(0), lab0(0), lab1(0), self(0), sid0(0), sid1(0), sid2(0), sid3(0), nchild(0) {}
     /* deep structure is abstract in the flat stub: sub-types are arbitrary (callers that
        recurse into them are answered by a contract, rule L12) */
     /* returns a reference: CBMC's front end cannot call a member on an rvalue's member */
@@ -131,6 +131,11 @@ public:
     type_t get_sub(uint32_t i) const;
     type_t get_sub() const;
     type_t get_array_size() const;
+    /* children of constructed types (FUNCTION: [0] return type, [i] parameter i): pool slots sid0..sid3 */
+    int nchild;
+    size_t size() const { return (size_t)nchild; }
+    type_t operator[](uint32_t i) const;
+    type_t get(uint32_t i) const { return (*this)[i]; }
     int self;     /* abstract identity of this type as a sub-structure (contracts of recursive callees depend only on it) */
     static type_t verif_any_type()
     {
@@ -140,6 +145,9 @@ public:
         __CPROVER_assume(w <= VW_ALL && n >= 0 && n <= 2);
         __CPROVER_assume(s0 >= 0 && s0 < VERIF_NSID && s1 >= 0 && s1 < VERIF_NSID && s2 >= 0 && s2 < VERIF_NSID && s3 >= 0 && s3 < VERIF_NSID);
         t.sid0 = s0; t.sid1 = s1; t.sid2 = s2; t.sid3 = s3;
+        int nc;
+        __CPROVER_assume(nc >= 0 && nc <= 4);
+        t.nchild = nc;
         t.base = k; t.wrap = w; t.konst = c; t.mut = m; t.range.first.id = a; t.range.second.id = b; t.nrec = n; t.lab0 = l0; t.lab1 = l1;
         return t;
     }
@@ -155,6 +163,14 @@ public:
 extern type_t verif_tpool[VERIF_NSID];
 inline type_t type_t::get_sub(uint32_t i) const { int s = (i == 0) ? sid0 : sid1; type_t t = verif_tpool[s]; t.self = s; return t; }
 inline type_t type_t::get_sub() const { type_t t = verif_tpool[sid2]; t.self = sid2; return t; }
+inline type_t type_t::operator[](uint32_t i) const
+{
+    __CPROVER_assert(i < (uint32_t)nchild && i < 4, "stub: type child index < size()");
+    int s = i == 0 ? sid0 : i == 1 ? sid1 : i == 2 ? sid2 : sid3;
+    type_t t = verif_tpool[s];
+    t.self = s;
+    return t;
+}
 inline type_t type_t::get_array_size() const { type_t t = verif_tpool[sid3]; t.self = sid3; return t; }
 inline void verif_tpool_havoc()
 {
@@ -207,8 +223,15 @@ struct verif_symset_it
 struct verif_symset
 {
     unsigned mask;
-    verif_symset(): mask(0) {}
-    void insert(const symbol_t& s) { if (s.id >= 0 && s.id < VERIF_NSYM) mask |= (1u << s.id); }
+    verif_symset(): mask(0), has_null(false) {}
+    void insert(const symbol_t& s) { if (s.id >= 0 && s.id < VERIF_NSYM) mask |= (1u << s.id); else has_null = true; }
+    /* range insert of a whole set: insert(o.begin(), o.end()) */
+    void insert(const verif_symset_it& b, const verif_symset_it& e)
+    {
+        __CPROVER_assert(e.pos == VERIF_NSYM, "stub: range insert takes [begin, end) of a whole set");
+        mask |= b.mask;
+    }
+    bool has_null; /* the null symbol symbol_t() was inserted (collect_possible_reads' random marker) */
     verif_symset_it end() const { verif_symset_it i; i.pos = VERIF_NSYM; i.mask = mask; return i; }
     verif_symset_it begin() const
     {
@@ -224,9 +247,18 @@ struct verif_symset
         if (s.id >= 0 && s.id < VERIF_NSYM && ((mask >> s.id) & 1)) i.pos = s.id;
         return i;
     }
-    bool empty() const { return mask == 0; }
+    bool empty() const { return mask == 0 && !has_null; }
     size_t size() const { size_t n = 0; for (int i = 0; i < VERIF_NSYM; i++) n += (mask >> i) & 1; return n; }
 };
+
+inline verif_symset_it find_first_of(const verif_symset_it& b1, const verif_symset_it& e1, const verif_symset_it& b2, const verif_symset_it& e2)
+{
+    verif_symset_it r = e1;
+    unsigned m = b1.mask & b2.mask;
+    for (int i = VERIF_NSYM - 1; i >= 0; i--)
+        if ((m >> i) & 1) r.pos = i;
+    return r;
+}
 
 /* ---- expressions: handles into an arena of nodes ------------------------------------- */
 #ifndef VERIF_NNODES
@@ -241,13 +273,15 @@ struct verif_node
     type_t type;
     int nsub;
     int sub[VERIF_MAXSUB];
-    int sym;
+    symbol_t symbol; /* as in the real expression_data */
     int value;
     double dvalue;
     /* ghost summaries (the callee's contract for everything below this node) */
     bool g_changes; /* changes_any_variable()                                   */
     unsigned g_writes; /* W(e): symbols possibly written                          */
     unsigned g_reads;  /* R(e): symbols possibly read                             */
+    unsigned g_lv;     /* LV(e): symbols e may refer to as an lvalue (get_symbols)  */
+    bool g_rnd;        /* R(e) contains the random marker                          */
     bool g_a, g_b, g_c, g_d, g_e, g_f; /* property specific                         */
 };
 extern verif_node verif_nodes[VERIF_NNODES];
@@ -277,7 +311,7 @@ public:
         return expression_t(N().sub[i]);
     }
     expression_t get(uint32_t i) const { return (*this)[i]; }
-    symbol_t get_symbol() const { return symbol_t(N().sym); }
+    symbol_t get_symbol() const { return N().symbol; }
     /* the REAL accessors assert the variant alternative they read (expression.cpp get_value /
        get_double_value); the stub carries those asserts verbatim as code obligations */
     int32_t get_value() const
@@ -298,6 +332,15 @@ public:
     bool equal(const expression_t& o) const { return data == o.data; }
 
     /* REAL members sliced from src/expression.cpp (defined in the TU that includes them) */
+    void get_symbols(verif_symset& symbols) const;
+    void collect_possible_writes(verif_symset& symbols) const;
+    void collect_possible_reads(verif_symset& symbols, bool collectRandom = false) const;
+    bool changes_variable(const verif_symset& symbols) const;
+    bool changes_any_variable_real() const;
+    bool depends_on(const verif_symset& symbols) const;
+    void get_symbols__contract(verif_symset& s) const { if (data) s.mask |= data->g_lv; }
+    void collect_possible_writes__contract(verif_symset& s) const { if (data) s.mask |= data->g_writes; }
+    void collect_possible_reads__contract(verif_symset& s, bool collectRandom = false) const { if (data) { s.mask |= data->g_reads; if (data->g_rnd) s.has_null = true; } }
     bool uses_fp() const;
     bool uses_clock() const;
     bool uses_hybrid() const;
